@@ -111,6 +111,10 @@ func (s *streamWS) RecvMsg(m interface{}) error {
 		}
 	}
 
+	if !s.method.hasBody && s.recvN > 1 {
+		return io.EOF // a binding without body yields exactly one message
+	}
+
 	if s.recvN == 1 {
 		if err := s.params.set(args); err != nil {
 			return err
